@@ -132,7 +132,8 @@ def text_case(draw: Any) -> dict[str, Any]:
             "mode": draw(st.sampled_from(["sync", "sync", "async"]))}
 
 
-PROG_CFG = Cfg(confusion=0.3, wc_rate=0.05, shopify=True, tablerow=True, date=True, max_depth=3, budget=10)
+PROG_CFG = Cfg(confusion=0.3, wc_rate=0.05, shopify=True, tablerow=True, date=True, max_depth=3, budget=10,
+               range_vars=False)
 
 
 @st.composite
@@ -184,6 +185,8 @@ class C02(Prop):
         "is not the subject)",
         "time bound: only non-termination is detected (20 s watchdog, confirmed by 3 isolated 60 s re-runs)",
         "async renders are driven without an event loop (no awaiting loaders in this property)",
+        "range literals in generated programs have small literal bounds: a loop or array whose size is the "
+        "numeric value of hostile data ((1..n), n = 10**14) is legitimate work, not a hang",
     ]
     hang_is_violation = True
     batch = 400
